@@ -86,6 +86,8 @@ func c05IpamStates() []ipamState {
 		{"reserve dp_ns_d_ holds .1 .3", [][2]string{{"10.10.1.1", "dp_ns_d_"}, {"10.10.1.3", "dp_ns_d_"}}, ""},
 		{"k1 holds .1 .2, .3 reserved by an administrator (not yet seen)", [][2]string{{"10.10.1.1", "sts_ns_a_a-0"}, {"10.10.1.2", "sts_ns_a_a-0"}}, "10.10.1.3"},
 		{".4 reserved by an administrator (not yet seen)", nil, "10.10.1.4"},
+		// a reservation in the middle of what a multi-range request walks: the request is refused half-way and rolls back
+		{".2 reserved by an administrator (not yet seen)", nil, "10.10.1.2"},
 	}
 }
 
